@@ -2,10 +2,10 @@
 # tools/confirm_seed.sh <PROP> <k> : confirm a sub-agent's seeded change in its scratch worktree and store it under /verif/seeded/
 set -u
 P=$1; K=$2
-WT=/tmp/wt/$P; SRC=/tmp/wt-out/$P/$K; DST=/verif/seeded/$P-$K
+WT=${SEED_WT_ROOT:-/tmp/wt}/$P; SRC=${SEED_OUT_ROOT:-/tmp/wt-out}/$P/$K; DST=/verif/seeded/$P-${3:-$K}
 [ -d "$WT" ] || git -C /repo worktree add -q --detach "$WT" HEAD
 git -C "$WT" reset -q --hard; git -C "$WT" checkout -q --detach "$(git -C /repo rev-parse HEAD)"
-run_demo() { (cd "$SRC" && VERIF_REPO=$WT PYTHONPATH=/root/subst timeout 900 /venv/bin/python demo.py >/tmp/wt-out/$P/$K.demo.$1.log 2>&1; echo $?); }
+run_demo() { (cd "$SRC" && VERIF_REPO=$WT PYTHONPATH=/root/subst timeout 900 /venv/bin/python demo.py >$SRC.demo.$1.log 2>&1; echo $?); }
 clean_rc=$(run_demo clean)
 (git -C "$WT" apply "$SRC/patch.diff" 2>/dev/null || git -C "$WT" apply --3way "$SRC/patch.diff") || { echo "patch does not apply"; exit 2; }
 patched_rc=$(run_demo patched)
